@@ -27,7 +27,7 @@ def i32(opt, v):
     return [opt, "i32", v]
 
 
-def run_scenarios(ctx, scenarios, tag, timeout=1800, jobs=1):
+def run_scenarios(ctx, scenarios, tag, timeout=1800, jobs=1, env=None):
     """Run scenarios with `vh sock`. jobs > 1 runs several harness processes side by side (only for
     scenarios whose oracles do not depend on timing)."""
     import subprocess
@@ -35,7 +35,7 @@ def run_scenarios(ctx, scenarios, tag, timeout=1800, jobs=1):
         path = os.path.join(ctx.work, "sc_%s.jsonl" % tag)
         out = os.path.join(ctx.work, "sc_%s.out" % tag)
         vlib.write_jsonl(path, scenarios)
-        vlib.vh(["sock", path, out], timeout=timeout, env={"VERIF_SEED": str(ctx.seed)})
+        vlib.vh(["sock", path, out], timeout=timeout, env=dict({"VERIF_SEED": str(ctx.seed)}, **(env or {})))
         res = [json.loads(l) for l in open(out) if l.strip()]
     else:
         chunks = [scenarios[i::jobs] for i in range(jobs)]
@@ -44,9 +44,10 @@ def run_scenarios(ctx, scenarios, tag, timeout=1800, jobs=1):
             path = os.path.join(ctx.work, "sc_%s_%d.jsonl" % (tag, j))
             out = os.path.join(ctx.work, "sc_%s_%d.out" % (tag, j))
             vlib.write_jsonl(path, ch)
-            env = dict(os.environ)
-            env["VERIF_SEED"] = str(ctx.seed)
-            procs.append((subprocess.Popen([vlib.VH, "sock", path, out], cwd=vlib.WORK, env=env, stdout=subprocess.PIPE, stderr=subprocess.STDOUT), out, len(ch)))
+            penv = dict(os.environ)
+            penv["VERIF_SEED"] = str(ctx.seed)
+            penv.update(env or {})
+            procs.append((subprocess.Popen([vlib.VH, "sock", path, out], cwd=vlib.WORK, env=penv, stdout=subprocess.PIPE, stderr=subprocess.STDOUT), out, len(ch)))
         parts = []
         for p, out, n in procs:
             try:
